@@ -6,6 +6,8 @@
 import Rox.Props.C14Base
 import Rox.Lemmas.ErrPos
 import Rox.Lemmas.ShiftErr
+import Rox.Lemmas.ErrPayload
+import Rox.Props.C01
 import Rox.Generated
 
 namespace Rox.Props.C14
@@ -74,5 +76,21 @@ theorem error_moves_with_line_breaks (txt : Bytes) (hv : ValidUtf8 txt) (opt : O
 example : shPosSp 3 ⟨1, 7⟩ = ⟨1, 10⟩ ∧ shPosNl 3 ⟨1, 7⟩ = ⟨4, 7⟩ ∧ shPosSp 3 ⟨2, 7⟩ = ⟨2, 7⟩ ∧
     (Err.unexpectedCloseTag [97] [98] ⟨1, 7⟩).mapPos (shPosSp 3) = .unexpectedCloseTag [97] [98] ⟨1, 10⟩ := by
   decide
+
+/-- **Names and characters carried in an error are the ones written in the source** (every valid
+UTF-8 input, every option value, errors raised while expanding entities included): the prefix of
+`DuplicatedNamespace` / `UnknownNamespace`, the name of `UnknownEntityReference`, the local name of
+`DuplicatedAttribute`, and both names of `UnexpectedCloseTag` — the end tag as written and the
+qualified name of the element it should have closed, as written in its start tag — are contiguous
+pieces of the input; the character of `NonXmlChar` occurs in the input (as its UTF-8 encoding); the
+actual byte of `InvalidChar` occurs in the input. -/
+theorem error_payload_from_source (txt : Bytes) (hv : ValidUtf8 txt) (opt : Opt) (e : Err)
+    (h : parse Generated.tables txt opt = .err e) : PayloadOk txt e :=
+  parse_error_payload Generated.tables C01.generated_tables_ok txt hv opt e h
+
+/-- what the payload predicate says, on a concrete error: `<p:a></p:b>` names are pieces of it -/
+example : PayloadOk [60, 112, 58, 97, 62, 60, 47, 112, 58, 98, 62]
+    (.unexpectedCloseTag [112, 58, 97] [112, 58, 98] ⟨1, 6⟩) :=
+  ⟨⟨[60], [62, 60, 47, 112, 58, 98, 62], rfl⟩, ⟨[60, 112, 58, 97, 62, 60, 47], [62], rfl⟩⟩
 
 end Rox.Props.C14
